@@ -246,27 +246,43 @@ fn eval_limit_inner(c: &LimitCase) -> Outcome {
             // a few payload bytes may already have arrived, never the whole payload
             let extra = (*extra as u64).min(len.saturating_sub(1)).min(64) as usize;
             src.extend_from_slice(&vec![0u8; extra]);
-            let r = codec.decode(&mut src);
+            // decoded in the worker process: a decoder that trusts the length field may try to
+            // reserve it, which must not take this process down
+            use super::c06::{ask, Verdict, T_FRAME_ONCE};
+            let r = match ask(T_FRAME_ONCE, &src) {
+                Verdict::Harness(e) => return Outcome::Inconclusive(e),
+                Verdict::Died(st) => {
+                    return Outcome::fail("decode-header-aborts", format!("a bare 9-byte header with length field {len} (+{extra} payload bytes) killed the decoding process ({st}): abort or a single allocation request above 1 GiB"));
+                }
+                Verdict::Reply(r) => r,
+            };
+            if r.status == 2 {
+                return Outcome::fail(format!("panic:{}", panics::normalise(&r.msg)), format!("decoder panicked on a bare header with length field {len}: {}", r.msg));
+            }
+            if r.max_single > 64 * LIMIT {
+                return Outcome::fail("decode-reserve-excessive", format!("decoder requested a single allocation of {} bytes for a header announcing {len} bytes", r.max_single));
+            }
+            let (is_err, is_none, is_some) = (r.status == 1, r.status == 0 && r.out_len == 0, r.status == 0 && r.out_len > 0);
             if *len > LIMIT {
-                match r {
-                    Err(_) => Outcome::pass(vec!["decode-over-limit-header-refused"], true),
-                    Ok(None) => Outcome::fail("decode-over-limit-buffers", format!("length prefix {len} > {LIMIT}: the decoder asked for more bytes instead of refusing")),
-                    Ok(Some(f)) => Outcome::fail("decode-over-limit-yields", format!("length prefix {len} > {LIMIT} decoded to {f:?}")),
+                if is_err {
+                    Outcome::pass(vec!["decode-over-limit-header-refused"], true)
+                } else if is_none {
+                    Outcome::fail("decode-over-limit-buffers", format!("length prefix {len} > {LIMIT}: the decoder asked for more bytes instead of refusing"))
+                } else {
+                    Outcome::fail("decode-over-limit-yields", format!("length prefix {len} > {LIMIT} decoded to a frame"))
                 }
+            } else if is_none {
+                Outcome::pass(vec!["header-within-limit-waits"], *len + 2 >= LIMIT)
+            } else if is_some && *len == 0 {
+                Outcome::pass(vec!["empty-payload-frame"], false)
+            } else if is_err && *len == 0 {
+                Outcome::pass(vec!["empty-payload-rejected-by-type"], false)
+            } else if is_err && *ty > 7 {
+                Outcome::pass(vec!["unknown-type-rejected-early"], false)
+            } else if is_some {
+                Outcome::fail("incomplete-frame-decoded", format!("only {extra} of {len} payload bytes present, decoder yielded a frame"))
             } else {
-                match r {
-                    Ok(None) => {
-                        if *len > 0 && src.capacity() as u64 > 64 * LIMIT {
-                            return Outcome::fail("decode-reserve-excessive", format!("decoder reserved {} bytes for a {len}-byte payload", src.capacity()));
-                        }
-                        Outcome::pass(vec!["header-within-limit-waits"], *len + 2 >= LIMIT)
-                    }
-                    Ok(Some(_)) if *len == 0 => Outcome::pass(vec!["empty-payload-frame"], false),
-                    Err(_) if *len == 0 => Outcome::pass(vec!["empty-payload-rejected-by-type"], false),
-                    Ok(Some(f)) => Outcome::fail("incomplete-frame-decoded", format!("only {extra} of {len} payload bytes present, decoder yielded {f:?}")),
-                    Err(_) if *ty > 7 => Outcome::pass(vec!["unknown-type-rejected-early"], false),
-                    Err(e) => Outcome::fail("decode-within-limit-refused", format!("length prefix {len} <= {LIMIT} refused before the payload arrived: {e}")),
-                }
+                Outcome::fail("decode-within-limit-refused", format!("length prefix {len} <= {LIMIT} refused before the payload arrived: {}", r.msg))
             }
         }
     }
